@@ -168,16 +168,18 @@ structure Clauses where
   /-- a value owner that is replaced (scope write) or whose scope is deleted has signed -/
   valueOwner : Bool := true
 
-def Clauses.ofReq (env : Env) (mt : MsgType) (signers : List Addr) (used : List Addr) (req : Spec.Req) :
+/-- `extra`: the signer that signs for the value owner (scope write / deletion) -/
+def Clauses.ofReq (env : Env) (mt : MsgType) (signers : List Addr) (extra : List Addr) (req : Spec.Req) :
     Clauses :=
+  let sc := req.contractsOk env mt signers extra
   match req with
   | .parties r a roles =>
     { requiredCovered := Spec.requiredCovered env mt signers r
       rolesCovered := Spec.rolesCovered env mt signers a roles
-      smartContract := Spec.smartContractOk env mt used signers }
+      smartContract := sc }
   | .addrs required =>
     { requiredCovered := Spec.withoutPartiesOk env mt required signers
-      smartContract := Spec.smartContractOk env mt used signers }
+      smartContract := sc }
 
 /-- `tag` names the endpoint; `impl` is the first word of the implementation's output. -/
 def verdict (tag : String) (c : Clauses) (impl : String) : String :=
@@ -197,16 +199,6 @@ def verdict (tag : String) (c : Clauses) (impl : String) : String :=
       && c.rolesCovered && c.smartContract && c.valueOwner
     -- a rejection is wrong only when every documented requirement is met
     if all then s!"fail:{tag}:rejected_valid:{if impl.startsWith "err:" then (impl.drop 4).toString else impl}" else "ok"
-
-def usedOf (r : Except Err (List PartyDetails)) : List Addr :=
-  match r with
-  | .ok ps => getUsedSigners ps
-  | .error _ => []
-
-def usedVO (r : Except Err (List Addr)) : List Addr :=
-  match r with
-  | .ok u => u
-  | .error _ => []
 
 def parseVO (ws : List String) (k : String) : Addr :=
   match kv ws k with
@@ -242,16 +234,14 @@ def stepWords (ws : List String) : Option Parsed := do
     let avail ← (kv ws "avail") >>= parseParties?
     let roles ← (kv ws "roles") >>= parseRoles?
     let r := validateSignersWithParties env mt req avail roles signers
-    let used := usedOf (validateAllRequiredPartiesSigned env mt req avail roles signers)
-    let c := Clauses.ofReq env mt signers used (.parties req avail roles)
+    let c := Clauses.ofReq env mt signers [] (.parties req avail roles)
     let pv := Spec.provenanceRoleOk env avail
     some ⟨showRes r, "wp", { c with provMust := pv, provMay := pv }, none⟩
   | some "wo" =>
     let mt ← kv ws "mt"
     let required := parseAddrs ((kv ws "required").getD "-")
     let r := validateSignersWithoutParties env mt required signers
-    let used := usedOf (validateAllRequiredSigned env mt required signers)
-    some ⟨showRes r, "wo", Clauses.ofReq env mt signers used (.addrs required), none⟩
+    some ⟨showRes r, "wo", Clauses.ofReq env mt signers [] (.addrs required), none⟩
   | some "wscope" =>
     let existing ← (kv ws "existing") >>= parseOpt? parseScope?
     let proposed ← (kv ws "proposed") >>= parseScope?
@@ -272,64 +262,65 @@ def stepWords (ws : List String) : Option Parsed := do
     let hasVO := (kv ws "vo").isSome || (kv ws "pvo").isSome
     let vo := parseVO ws "vo"
     let pvo := parseVO ws "pvo"
-    let exVO := lookedUpVO existing vo pvo
     let only := Spec.onlyValueOwnerChanges existing vo proposed pvo
     let r := validateWriteScopeVO env existing vo proposed pvo newRoles existingSpecRoles signers
-    let used := match existing with
-      | none => []
-      | some ex =>
-        if only then []
-        else if ex.rollup then usedOf (validateAllRequiredPartiesSigned env mt ex.owners ex.owners governing signers)
-        else if !(ex.equals proposed && exVO == pvo) then
-          usedOf (validateAllRequiredSigned env mt (getPartyAddresses ex.owners) signers)
-        else []
-    let used := usedVO (validateScopeValueOwnersSigners env mt exVO pvo signers) ++ used
+    -- the message server: what is stored after an accepted write (model) / what the message asks for (spec)
+    let rm := msgWriteScope env existing vo proposed pvo newRoles existingSpecRoles signers
     -- the documented requirement: the roles of the stored scope's specification sign
-    let c := Clauses.ofReq env mt signers used (Spec.writeScopeReqVO existing vo proposed pvo governing)
+    let c := Clauses.ofReq env mt signers (Spec.writeScopeValueOwnerUsed env existing vo pvo signers)
+      (Spec.writeScopeReqVO existing vo proposed pvo governing)
     let pv := only || Spec.provenanceRoleOk env proposed.owners
     let c := { c with rolesPresent := only || Spec.rolesPresent proposed.owners newRoles, provMust := pv, provMay := pv
                       valueOwner := Spec.writeScopeValueOwnerOk env existing vo pvo signers }
-    let stored := showScope ({ proposed with other := proposed.other % 1000 })
-    let stored := if hasVO then s!"{stored}@{showVO (if pvo != "" then pvo else vo)}" else stored
-    some ((⟨showUnit r, if specChange then "wscope_spec_change" else "wscope", c, none⟩ : Parsed).withStored via stored)
+    -- (the `+1000` that encodes "names another specification" is not part of the stored entry)
+    let showStored := fun (sc : Scope) (o : Addr) =>
+      let st := showScope ({ sc with other := sc.other % 1000 })
+      if hasVO then s!"{st}@{showVO o}" else st
+    let out := if via then
+        match rm with
+        | .ok (sc, o) => s!"ok stored={showStored sc o}"
+        | .error e => e.show
+      else showUnit r
+    some ⟨out, if specChange then "wscope_spec_change" else "wscope", c,
+      if via then some (showStored proposed (Spec.valueOwnerAfterWrite vo pvo)) else none⟩
   | some "dscope" =>
     let scope ← (kv ws "scope") >>= parseScope?
     let roles ← (kv ws "roles") >>= parseOpt? parseRoles?
     let mt := "DeleteScope"
     let vo := parseVO ws "vo"
     let r := validateDeleteScopeVO env scope vo roles signers
-    let used :=
-      if !scope.rollup then usedOf (validateAllRequiredSigned env mt (getPartyAddresses scope.owners) signers)
-      else match roles with
-        | none => usedOf (validateAllRequiredSigned env mt (getRequiredPartyAddresses scope.owners) signers)
-        | some rs => usedOf (validateAllRequiredPartiesSigned env mt scope.owners scope.owners rs signers)
-    let used := usedVO (validateScopeValueOwnersSigners env mt vo "" signers) ++ used
-    let c := Clauses.ofReq env mt signers used (Spec.deleteScopeReq scope roles)
-    some ((⟨showUnit r, "dscope", { c with valueOwner := Spec.deleteScopeValueOwnerOk env vo signers }, none⟩ : Parsed).withStored
-      via "none")
+    let c := Clauses.ofReq env mt signers (Spec.deleteScopeValueOwnerUsed env vo signers) (Spec.deleteScopeReq scope roles)
+    let showStored := fun (o : Option Scope) => match o with
+      | none => "none"
+      | some sc => showScope sc
+    let out := if via then
+        match msgDeleteScope env scope vo roles signers with
+        | .ok o => s!"ok stored={showStored o}"
+        | .error e => e.show
+      else showUnit r
+    some ⟨out, "dscope", { c with valueOwner := Spec.deleteScopeValueOwnerOk env vo signers },
+      if via then some (showStored none) else none⟩
   | some "upd" =>
     let mt ← kv ws "mt"
     let scope ← (kv ws "scope") >>= parseScope?
     let roles ← (kv ws "roles") >>= parseRoles?
     let r := validateScopeUpdateSigners env mt scope roles signers
-    let used :=
-      if !scope.rollup then usedOf (validateAllRequiredSigned env mt (getPartyAddresses scope.owners) signers)
-      else usedOf (validateAllRequiredPartiesSigned env mt scope.owners scope.owners roles signers)
-    let c := Clauses.ofReq env mt signers used (Spec.scopeUpdateReq scope roles)
+    let c := Clauses.ofReq env mt signers [] (Spec.scopeUpdateReq scope roles)
     let pv := !scope.rollup || Spec.provenanceRoleOk env scope.owners
-    let after : Scope :=
-      if mt = "AddScopeDataAccess" then { scope with other := scope.other + 1 } else { scope with other := scope.other - 1 }
-    some ((⟨showUnit r, "upd", { c with provMay := pv }, none⟩ : Parsed).withStored via (showScope after))
+    let out := if via then
+        match msgScopeDataAccess env mt scope roles signers with
+        | .ok sc => s!"ok stored={showScope sc}"
+        | .error e => e.show
+      else showUnit r
+    some ⟨out, "upd", { c with provMay := pv },
+      if via then some (showScope (Spec.scopeAfterDataAccess mt scope)) else none⟩
   | some "owners" =>
     let mt ← kv ws "mt"
     let scope ← (kv ws "scope") >>= parseScope?
     let proposed ← (kv ws "proposed") >>= parseParties?
     let roles ← (kv ws "roles") >>= parseRoles?
     let r := validateUpdateScopeOwners env mt scope proposed roles signers
-    let used :=
-      if !scope.rollup then usedOf (validateAllRequiredSigned env mt (getPartyAddresses scope.owners) signers)
-      else usedOf (validateAllRequiredPartiesSigned env mt scope.owners scope.owners roles signers)
-    let c := Clauses.ofReq env mt signers used (Spec.scopeUpdateReq scope roles)
+    let c := Clauses.ofReq env mt signers [] (Spec.scopeUpdateReq scope roles)
     let pv := Spec.provenanceRoleOk env proposed
     some ⟨showUnit r, "owners",
       { c with optionalOk := scope.rollup || !proposed.any (·.optional)
@@ -343,12 +334,7 @@ def stepWords (ws : List String) : Option Parsed := do
     let roles ← (kv ws "roles") >>= parseRoles?
     let mt := "WriteSession"
     let r := validateWriteSession env scope existing proposed roles signers
-    let used :=
-      if !scope.rollup then usedOf (validateAllRequiredSigned env mt (getPartyAddresses scope.owners) signers)
-      else match existing with
-        | some ex => usedOf (validateAllRequiredPartiesSigned env mt (ex ++ scope.owners) ex roles signers)
-        | none => usedOf (validateAllRequiredPartiesSigned env mt scope.owners proposed roles signers)
-    let c := Clauses.ofReq env mt signers used (Spec.writeSessionReq scope existing proposed roles)
+    let c := Clauses.ofReq env mt signers [] (Spec.writeSessionReq scope existing proposed roles)
     let pv := Spec.provenanceRoleOk env proposed
     let pvEx := match existing with
       | some ex => !scope.rollup || Spec.provenanceRoleOk env ex
@@ -369,12 +355,7 @@ def stepWords (ws : List String) : Option Parsed := do
     let roles ← (kv ws "roles") >>= parseRoles?
     let mt := "WriteRecord"
     let r := validateWriteRecord env scope session old roles signers
-    let oldL := match old with | some os => os | none => []
-    let used :=
-      if !scope.rollup then
-        usedOf (validateAllRequiredSigned env mt (getPartyAddresses session ++ getPartyAddresses oldL) signers)
-      else usedOf (validateAllRequiredPartiesSigned env mt (scope.owners ++ session ++ oldL) session roles signers)
-    let c := Clauses.ofReq env mt signers used (Spec.writeRecordReq scope session old roles)
+    let c := Clauses.ofReq env mt signers [] (Spec.writeRecordReq scope session old roles)
     some ((⟨showUnit r, "wrecord",
       { c with rolesPresent := scope.rollup || Spec.rolesPresent session roles
                provMay := !scope.rollup || Spec.provenanceRoleOk env session }, none⟩ : Parsed).withStored via "sess")
@@ -383,14 +364,7 @@ def stepWords (ws : List String) : Option Parsed := do
     let roles ← (kv ws "roles") >>= parseOpt? parseRoles?
     let mt := "DeleteRecord"
     let r := validateDeleteRecord env scope roles signers
-    let used := match scope with
-      | none => []
-      | some sc =>
-        if !sc.rollup then usedOf (validateAllRequiredSigned env mt (getPartyAddresses sc.owners) signers)
-        else match roles with
-          | none => usedOf (validateAllRequiredSigned env mt (getRequiredPartyAddresses sc.owners) signers)
-          | some rs => usedOf (validateAllRequiredPartiesSigned env mt sc.owners sc.owners rs signers)
-    let c := Clauses.ofReq env mt signers used (Spec.deleteRecordReq scope roles)
+    let c := Clauses.ofReq env mt signers [] (Spec.deleteRecordReq scope roles)
     let c := match scope with
       | none => { c with smartContract := true }
       | some sc =>
@@ -420,10 +394,7 @@ def stepWords (ws : List String) : Option Parsed := do
     | some scope, true =>
       -- exactly the clauses of `owners`, on the STORED scope and the owner list asked for
       let proposed := asked scope
-      let used :=
-        if !scope.rollup then usedOf (validateAllRequiredSigned env mt (getPartyAddresses scope.owners) signers)
-        else usedOf (validateAllRequiredPartiesSigned env mt scope.owners scope.owners roles signers)
-      let c := Clauses.ofReq env mt signers used (Spec.scopeUpdateReq scope roles)
+      let c := Clauses.ofReq env mt signers [] (Spec.scopeUpdateReq scope roles)
       let pv := Spec.provenanceRoleOk env proposed
       some ⟨out, "mowners",
         { c with optionalOk := scope.rollup || !proposed.any (·.optional)
